@@ -300,8 +300,10 @@ def check_pc_member(K, L, perm, r, rtol=1e-8):
                 fails.append(("argmax", "pivot %d (index %d, residual diagonal %.17g) is not the largest remaining residual diagonal entry (%.17g at index %d)"
                               % (j, perm[j], d[perm[j]], mx, cand[first])))
             elif d[perm[j]] == mx:
-                fails.append(("tie", "pivot %d: tie between positions %d and %d of the remaining permutation broken towards the later one (torch.max returns the first maximum)"
-                              % (j, first, chosen)))
+                # an exact tie broken towards a later position: still "the largest remaining residual diagonal
+                # entry", so NOT a failure of the property; the model (torch.max: first maximum) will disagree and
+                # the run reports that as a model-implementation disagreement
+                info["tie_rule_differs"] = info.get("tie_rule_differs", 0) + 1
             else:
                 info.setdefault("near_tie", []).append(j)
     return fails, info
